@@ -523,3 +523,31 @@ Theorem pspace_reduce_never_wrapped_refuted :
   (2 <= n)%nat -> s <> [] -> a_shape r = s -> wrap_pspace cast n s d r = Err EValue.
 Proof. exact @wrap_part_shape_fails. Qed.
 Print Assumptions pspace_reduce_never_wrapped_refuted.
+
+(* ------------------------------------------------------------------------
+   TRANSFER: the array semantics executed at Q by the correspondence shards is
+   the rational restriction of the semantics the R-instance laws above are
+   about -- Q2R commutes with every method, for every division-free ufunc
+   (all but true_divide / reciprocal), every shape. *)
+From Coq Require Import Qreals.
+From Verif Require Import Base.Transfer C17.Transfer.
+Theorem transfer_reduce :
+  forall (o : bop) (outer n inner : nat) (d : list Q), bop_nodiv o = true ->
+  option_map (map Q2R) (reduce_ax o outer n inner d) = reduce_ax o outer n inner (map Q2R d).
+Proof. exact reduce_ax_transfer. Qed.
+Theorem transfer_accumulate :
+  forall (o : bop) (outer n inner : nat) (d : list Q), bop_nodiv o = true ->
+  map Q2R (accumulate_ax o outer n inner d) = accumulate_ax o outer n inner (map Q2R d).
+Proof. exact accumulate_ax_transfer. Qed.
+Theorem transfer_outer :
+  forall (o : bop) (x y : list Q), bop_nodiv o = true ->
+  map Q2R (outer o x y) = outer o (map Q2R x) (map Q2R y).
+Proof. exact outer_transfer. Qed.
+Theorem transfer_at :
+  forall (o : bop) (a : list Q) (ivs : list (nat * Q)), bop_nodiv o = true ->
+  map Q2R (at2 o a ivs) = at2 o (map Q2R a) (map (fun iv => (fst iv, Q2R (snd iv))) ivs).
+Proof. exact at2_transfer. Qed.
+Theorem transfer_call_unary :
+  forall (u : uop) (d : list Q), uop_nodiv u = true -> map Q2R (call1 u d) = call1 u (map Q2R d).
+Proof. exact call1_transfer. Qed.
+Print Assumptions transfer_reduce.
